@@ -727,3 +727,54 @@ func VerifJSReturnTail(n int) {
 	body = append(body, tails[vChoice("tail", len(tails))]...)
 	verifJSProgram(body, 0)
 }
+
+// VerifJSBoolCond: x=(C?Y:false), (C?false:Y), (C?Y:true), (C?true:Y) with C = E1 op E2, op in {||,&&}, Ei negations /
+// nullish tests, written without redundant parentheses: the boolean rewrites of optimizeCondExpr must keep grouping.
+func VerifJSBoolCond(n int) {
+	g := &jgen{}
+	atoms := []string{"!a", "!b", "a==null", "b!=null", "!f(1)", "a===undefined"}
+	e1 := atoms[g.choice(len(atoms))]
+	e2 := atoms[g.choice(len(atoms))]
+	op := []string{"||", "&&"}[g.choice(2)]
+	y := []string{"b", "a", "f(2)", "!b"}[g.choice(4)]
+	c := e1 + op + e2
+	if n >= 1 {
+		e3 := atoms[g.choice(len(atoms))]
+		c = c + []string{"||", "&&"}[g.choice(2)] + e3
+	}
+	var body string
+	switch g.choice(4) {
+	case 0:
+		body = "x=" + c + "?" + y + ":false;"
+	case 1:
+		body = "x=" + c + "?false:" + y + ";"
+	case 2:
+		body = "x=" + c + "?" + y + ":true;"
+	default:
+		body = "x=" + c + "?true:" + y + ";"
+	}
+	verifJSProgram([]byte(body), 0)
+}
+
+var jForPrefix = []string{"var a=g(),b=\"k\"in a;", "a=f();b=\"x\"in o;", "var f=(a,b)=>a in b;", "var has=(o,k)=>k in o;", "var t=new X(1),u=\"k\"in t;", "a=f?.();b=\"x\"in o;", "var c=a in b;", "var d=(a in b)?1:2;", "var e=[a in b];", "a=(b,\"k\"in c);"}
+var jForLoops = []string{"for(;b;)b=h()", "for(var i=0;i<1;i++)g(i)", "for(;x;)x=has(y,x)", "while(b)b=h()", "for(var j=(\"k\"in a);j;)j=0", "for(let q=()=>(1 in o);;)break"}
+
+// VerifJSForInit (C09, JS): statements that get merged into a for-initialiser around the `in` operator, calls, new and
+// arrow functions: the output is accepted by the parser again and a second pass leaves it unchanged.
+func VerifJSForInit(n int) {
+	src := []byte(jForPrefix[vChoice("p", len(jForPrefix))] + jForLoops[vChoice("l", len(jForLoops))])
+	if vBool("fn") {
+		src = append(append([]byte("function m(a,b,o,y){"), src...), '}')
+	}
+	w := &vWriter{}
+	err := (&Minifier{}).Minify(nil, w, &vReader{b: append([]byte(nil), src...)}, nil)
+	vAssert(err == nil, "accepted")
+	vOutput("out", w.buf)
+	out := append(make([]byte, 0, len(w.buf)+1), w.buf...)
+	_, perr := js.Parse(parse.NewInputBytes(append([]byte(nil), out...)), js.Options{})
+	vAssert(perr == nil, "output is valid JavaScript for the parser")
+	w2 := &vWriter{}
+	err2 := (&Minifier{}).Minify(nil, w2, &vReader{b: out}, nil)
+	vAssert(err2 == nil, "output is accepted again")
+	vReach("end")
+}
